@@ -151,6 +151,15 @@ fn build_handle(spec: &Value, ctx: &Ctx) -> Handle {
                 "log" => {
                     b.consistency_checker(logging_checker(ctx.checklog.clone(), ctx.chunk));
                 }
+                // a checker that was configured and then removed again: must behave as if none had ever been set
+                "cleared" => {
+                    b.byte_equality_checker();
+                    b.clear_consistency_checker();
+                }
+                "cleared-panic" => {
+                    b.panicking_byte_equality_checker();
+                    b.arc_consistency_checker(None);
+                }
                 _ => {}
             }
             if let Some(s) = spec["auto_sync"].as_bool() {
@@ -333,6 +342,7 @@ fn run_op(h: &Handle, op: &Value, ctx: &Ctx) -> Outcome {
                         return o;
                     }
                     let path = tmp.path().to_owned();
+                    apply_srcmode(&path, op);
                     phase("lib");
                     let r = match (h, api) {
                         (Handle::Plain(c), "set") => c.set(name, &path),
@@ -364,6 +374,7 @@ fn run_op(h: &Handle, op: &Value, ctx: &Ctx) -> Outcome {
                         return o;
                     }
                     let path = tmp.path().to_owned();
+                    apply_srcmode(&path, op);
                     phase("lib");
                     let r = if api == "set" { c.set(key, &path) } else { c.put(key, &path) };
                     phase("app");
@@ -487,6 +498,14 @@ fn run_op(h: &Handle, op: &Value, ctx: &Ctx) -> Outcome {
             }
         }
         other => panic!("unknown api {}", other),
+    }
+}
+
+/// The application may hand over a source file with any permission bits ("srcmode").
+fn apply_srcmode(path: &Path, op: &Value) {
+    if let Some(m) = op["srcmode"].as_u64() {
+        use std::os::unix::fs::PermissionsExt;
+        let _ = std::fs::set_permissions(path, std::fs::Permissions::from_mode(m as u32));
     }
 }
 
